@@ -42,6 +42,13 @@ BigChecks(run) ==
                              [] p.kind = "sometimes" -> disc(p.name) <=> Witnessed(G, p)
                              [] OTHER -> TRUE],
     stop_reason |-> [a |-> normal /\ Exhaustive(cfg) /\ cfg.target_depth = 0 /\ vn # ReachG, c |-> (normal /\ Exhaustive(cfg) /\ cfg.target_depth = 0 /\ vn # ReachG) => stop],
+    \* C12: the target counts really generated in-boundary states (see CheckerObs!target_real)
+    target_real |-> [a |-> normal /\ cfg.target_states > 0 /\ Exhaustive(cfg) /\ vn # ReachG /\ ~AllDiscovered(G, run)
+                           /\ ~Matches(cfg.finish, DiscNames(run), G.props),
+                     c |-> (normal /\ cfg.target_states > 0 /\ Exhaustive(cfg) /\ vn # ReachG /\ ~AllDiscovered(G, run)
+                            /\ ~Matches(cfg.finish, DiscNames(run), G.props)) =>
+                           /\ d.total >= cfg.target_states
+                           /\ Cardinality(InitB(G)) + SumOver(vn, [v \in vn |-> Len(SelectSeq(SuccList(G, v), LAMBDA t : t # 0 /\ InB(G, t)))]) >= cfg.target_states],
     \* BFS with one thread still visits by depth
     bfs_depth |-> [a |-> cfg.strategy = "bfs" /\ cfg.threads = 1,
                    c |-> (cfg.strategy = "bfs" /\ cfg.threads = 1) => \A i \in DOMAIN vis : i > 1 => vis[i - 1].depth <= vis[i].depth]
